@@ -26,7 +26,8 @@ ASSUMPTIONS = ["traces contain no addresses: graph instances are numbered per ru
 FLOORS = {"context_comparisons": {"quick": 500, "thorough": 4500}, "reused_builder_runs": {"quick": 100, "thorough": 1200},
           "concurrent_case_runs": {"quick": 150, "thorough": 2000}, "global_state_reads": {"quick": 500, "thorough": 3000}, "captured_error_values": {"quick": 15, "thorough": 120},
           "polymorphic_values_compared": {"quick": 60, "thorough": 400},
-          "recordings_repeated_over_carried_state": {"quick": 10, "thorough": 60}}
+          "recordings_repeated_over_carried_state": {"quick": 10, "thorough": 60},
+          "rebuilds_under_one_selected_context": {"quick": 6, "thorough": 40}}
 
 
 def gen_cases(rng, n, seed):
@@ -248,6 +249,40 @@ def main(tier, seed, replay):
                     V.append((c.name, f"run #{i} from a reused GraphExecutorBuilder differs from a fresh run at event {k}: "
                                       f"{(bb[k] if k < len(bb) else '<end>')[:160]!r} vs {(a[k] if k < len(a) else '<end>')[:160]!r}"))
                     break
+    # the same graph built and run TWICE under one selected GlobalContext: the user's state object stays theirs - the second build
+    # sees it exactly as the first one did, and it still holds what the user put in
+    reb = []
+    for c in [c for c in cases if c.meta.get("selects_context") and not c.meta.get("staged")][: max(6, n // 8)]:
+        c2 = c.clone()
+        c2.opts["rebuild"] = 2
+        reb.append(c2)
+    got, err, rc = run_file(exe, reb, f"{tag}.reb") if reb else ({}, "", 0)
+    if got is None:
+        inconc.append(f"rebuild context failed rc={rc}")
+    else:
+        upto = lambda b: b.split("RUN.released", 1)[0]
+        for c in reb:
+            if c.name not in got or c.name not in ref:
+                continue
+            head, blocks = runs_of(got[c.name])
+            rhead, rblocks = runs_of(ref[c.name])
+            counters["rebuilds_under_one_selected_context"] = counters.get("rebuilds_under_one_selected_context", 0) + 1
+            kept = re.findall(r"^GCTX\.kept (\d+) (\S+)", got[c.name], flags=re.M)
+            if len(blocks) != 2 or not rblocks:
+                V.append((c.name, f"built twice under one selected GlobalContext: {len(blocks)} run(s) instead of 2: "
+                                  f"{[l for l in got[c.name].splitlines() if l.startswith('X.')][:2]}"))
+                continue
+            for i, b in enumerate(blocks):
+                counters["context_comparisons"] += 1
+                if upto(b) != upto(rblocks[0]):
+                    a, bb = upto(rblocks[0]).splitlines(), upto(b).splitlines()
+                    k = next((j for j, (x, y) in enumerate(zip(a, bb)) if x != y), min(len(a), len(bb)))
+                    V.append((c.name, f"build #{i} under one selected GlobalContext runs differently from a fresh process at event {k}: "
+                                      f"{(bb[k] if k < len(bb) else '<end>')[:160]!r} vs {(a[k] if k < len(a) else '<end>')[:160]!r}"))
+                    break
+            if [v for _, v in kept] != [str(c.opts["gctx"])] * 2:
+                V.append((c.name, f"the state object selected through the GlobalContext held verif.k0={c.opts['gctx']} when it was handed in; "
+                                  f"after build + run #0 / #1 it reads {[v for _, v in kept]}"))
     # concurrent executors
     for rnd in range(2):
         order = list(cases)
